@@ -34,8 +34,15 @@ class SMGen(Gen):
 
         for c in block.constraints:
             if (isinstance(c, AtMostKInARow) or isinstance(c, AtLeastKInARow) or isinstance(c, ExactlyK)
-                or isinstance(c, Exclude) or isinstance(c, Pin)):
+                or isinstance(c, Exclude) or isinstance(c, Pin)
+                or isinstance(c, ExactlyKInARow) or isinstance(c, Sequential) or isinstance(c, LatinSquare)):
                 _cexit(f"{type(c).__name__} constraints are not supported by SMGen.")
+
+        # The search generates one run of the crossing (scaled by its weight), so a
+        # block that repeats its crossing to reach its trial count can't be handled
+        crossing_trials = block.crossing_size(block.crossings[0]) * block.crossing_weight(block.crossings[0])
+        if block.trials_per_sample() > block.preamble_size(block.crossings[0]) + crossing_trials:
+            _cexit(f"Repeated crossings are not supported by SMGen.")
 
         # For now, implement a minimum-trials contraint by weighting the levels of
         # one non-derived factor
